@@ -227,7 +227,9 @@ theorem upperBound_le (ts : List α) (v : α) : upperBound ts v ≤ ts.length :=
   | nil => simp [upperBound]
   | cons t ts ih =>
     simp only [upperBound]
-    split <;> simp <;> omega
+    split
+    · exact Nat.zero_le _
+    · simp only [List.length_cons]; omega
 
 theorem binOf_eq_upperBound (ts : List α) (v : α) : binOf ts v = upperBound ts v := by
   unfold binOf
